@@ -173,8 +173,19 @@ def user_function(spec):
     coef = spec["coef"]
     nres = spec.get("nres", 1)
 
+    def flat(v):
+        if isinstance(v, (tuple, list)):
+            tot = 0
+            for x in v:
+                tot = tot + flat(x)
+            return tot
+        return v
+
     def f(*args, **kw):
         kw.pop("tag", None)
+        if spec.get("kind") == "bag":
+            args = tuple(flat(a) for a in args)
+            kw = {n: flat(v) for n, v in kw.items()}
         vals = list(args)
         for n in names[len(args):]:
             if n in kw:
